@@ -14,6 +14,14 @@ Families (all exhaustive inside the stated bounds, see gen_*):
      base types; minimal and fully parenthesised spelling; named, typedef, abstract and parameter contexts
   C  structs and unions: every member sequence up to length 3 (thorough 4) over the member alphabet x attributes
   D  stddef.h types, enums, _Alignas on objects (address observed at run time)
+
+Verdicts.  A failing struct/union case is shrunk by dropping members (and the attribute) while the same kind of failure
+persists - every sub-sequence is itself an enumerated case, so this is a table lookup - and reported as
+`C08|<struct|union>|<attribute>:<member kind classes>|<deviation class>`.  One systematic defect of the pinned tree is a
+listed finding (findings.d/C08.txt): bit-fields inside packed structs.  It is recognised only when *every* observed fact
+of the case equals the transcription of chibicc's algorithm (layout(flavor="chibicc")); any other wrong answer in a
+packed struct keeps its own signature, so the finding does not blind the check.  When chibicc rejects or crashes on a
+batch, the offending cases are isolated one by one, reported, and still judged on sizeof/_Alignof alone if that compiles.
 """
 import os, re, itertools
 from vlib import core, twin
@@ -178,8 +186,6 @@ def render_declarator(shape, name, full_parens, params, na=0):
 def shape_facts(shape, base, e, params_call):
     """Peel the type level by level; returns [(label, expr)], model dict."""
     # sizes from the inside out
-    sizes = []   # (size, align) of the type at level k (None for function types)
-    na_total = shape.count("A")
     # array lengths are assigned in reading order from the identifier outwards
     lens = []
     na = 0
@@ -232,7 +238,6 @@ def gen_B(tier):
                     if not shape or shape[0] != "F":
                         # typedef and abstract type-name: the whole type only
                         d = render_declarator(shape, "T@", fp, params)
-                        whole = [f for f in facts if f[0].endswith("0")]
                         m0 = dict((k, v) for k, v in model.items() if k.endswith("0"))
                         cases.append(case("B/typedef/%s/%s/%s" % (sname, bn, style), "B", "typedef %s %s;" % (base[0], d),
                                           [("size0", "sizeof(T@)"), ("align0", "_Alignof(T@)")], model=m0,
@@ -587,14 +592,14 @@ def gen_D(tier):
             for st in ("", "static "):
                 # the address of the object is observed at run time: 0 means aligned as requested
                 cases.append(case("D/alignas-object/%s%s/%d" % (st.strip() and "static-", t.replace(" ", "_"), k), "D",
-                                  "char FN(g@a) = 1; %s_Alignas(%d) %s FN(g@); char FN(g@b) = 2;" % (st, k, t),
-                                  bfacts=[("misalign", "(long)((unsigned long)&FN(g@) %% %d)" % k), ("size", "sizeof(FN(g@))")],
+                                  "%schar FN(g@a) = 1; %s_Alignas(%d) %s FN(g@) = {1}; %schar FN(g@b) = 2;" % (st, st, k, t, st),
+                                  bfacts=[("misalign", "(long)((unsigned long)&FN(g@) %% %d) + 0 * (FN(g@a) + FN(g@b))" % k), ("size", "sizeof(FN(g@))")],
                                   model={"misalign": 0, "size": sz}, shape="alignas-object/%s" % ("static" if st else "extern")))
                 if not st and k > 16:
                     continue        # the psABI guarantees 16-byte stack alignment only; larger automatic alignments are extended
                 cases.append(case("D/alignas-local/%s%s/%d" % (st.strip() and "static-", t.replace(" ", "_"), k), "D",
-                                  blk="char a = 1; %s_Alignas(%d) %s v; char b = 2;" % (st, k, t),
-                                  bfacts=[("misalign", "(long)((unsigned long)&v %% %d)" % k), ("size", "sizeof(v)")],
+                                  blk="%schar a = 1; %s_Alignas(%d) %s v = {1}; %schar b = 2;" % (st, st, k, t, st),
+                                  bfacts=[("misalign", "(long)((unsigned long)&v %% %d) + 0 * (a + b)" % k), ("size", "sizeof(v)")],
                                   model={"misalign": 0, "size": sz},
                                   shape="alignas-local/%s" % ("static" if st else "auto")))
     return cases
@@ -621,6 +626,7 @@ def build_unit(cases):
             tabmap += [(ci, l) for l, e in c["facts"]]
     L.append("0 };")
     L.append("long FN(ntab) = %d;" % len(tabmap))
+    L.append("char FN(tabkind)[] = {%s0};" % "".join("1," if l == "id" else "0," for ci, l in tabmap))
     L.append("void FN(blk)(long *t) {")
     for ci, c in enumerate(cases):
         if c["bfacts"]:
@@ -631,6 +637,7 @@ def build_unit(cases):
             put(ci, "{ %s %s }" % (c["blk"].replace("@", str(ci)), " ".join(st)))
     L.append("}")
     L.append("long FN(nblk) = %d;" % len(blkmap))
+    L.append("char FN(blkkind)[] = {%s0};" % "".join("1," if l == "id" else "0," for ci, l in blkmap))
     for ci, c in enumerate(cases):
         if c["img"]:
             T, bits = c["img"]
@@ -652,7 +659,7 @@ class _C:
 
 def _cc(chibicc, include, src, obj, wd):
     _C.chibicc = chibicc
-    return twin.cc_compile(_C, src, obj, ["-DPFX=cc_", "-I", include], cwd=wd)
+    return twin.cc_compile(_C, src, obj, ["-DPFX=cc_", "-I" + include], cwd=wd)
 
 
 DRIVER = os.path.join(core.VERIF, "harness", "c08_driver.c")
@@ -727,7 +734,7 @@ def _run_batch(args):
                 with open(p1, "w") as f:
                     f.write(twin.PRELUDE + t1)
                 if stage == "cc1":
-                    st1, o1, e1 = core.run_limited([chibicc, "-cc1", "-DPFX=cc_", "-I", include, "-cc1-input", p1, "-cc1-output",
+                    st1, o1, e1 = core.run_limited([chibicc, "-cc1", "-DPFX=cc_", "-I" + include, "-cc1-input", p1, "-cc1-output",
                                                     os.path.join(wd, "one.s"), p1], cwd=wd, timeout=120)
                     return st1 == 0, "cc1", st1, e1, t1
                 r = _cc(chibicc, include, p1, os.path.join(wd, "one.o"), wd)
@@ -749,7 +756,7 @@ def _run_batch(args):
                     else:
                         del cur[i]
             if not changed:
-                res["harness"] = "chibicc fails on batch %d but on no single case (%s %s): %s" % (bidx, stage, st, err[-300:])
+                res["harness"] = "chibicc fails on batch %s but on no single case (%s %s): %s" % (bidx, stage, st, err[-300:])
                 return res
             continue
         ok, err = twin.ref_compile(u, os.path.join(wd, "ref.o"), ["-DPFX=ref_"], cwd=wd)
@@ -760,7 +767,7 @@ def _run_batch(args):
                 if ci is not None:
                     bad.add(order[ci])
             if not bad:
-                res["harness"] = "gcc rejects batch %d at an unmapped line: %s" % (bidx, err[-600:])
+                res["harness"] = "gcc rejects batch %s at an unmapped line: %s" % (bidx, err[-600:])
                 return res
             for i in bad:
                 res["ref_rejected"].append(i); del cur[i]
@@ -768,11 +775,11 @@ def _run_batch(args):
         exe = os.path.join(wd, "t.exe")
         st, out, err = core.run_limited(twin.GCC_DRV + ["-o", exe, DRIVER, "cc.o", "ref.o", "-no-pie", "-Wl,-z,noexecstack"], cwd=wd, timeout=300)
         if st != 0:
-            res["harness"] = "driver link failed in batch %d: %s" % (bidx, err[-600:])
+            res["harness"] = "driver link failed in batch %s: %s" % (bidx, err[-600:])
             return res
         st, out, err = core.run_limited([exe], cwd=wd, timeout=300)
         if st != 0 or not re.search(r"^S tab=\d+ blk=\d+ img=\d+$", out, re.M):
-            res["harness"] = "driver failed in batch %d: status %s %s %s" % (bidx, st, out[-300:], err[-300:])
+            res["harness"] = "driver failed in batch %s: status %s %s %s" % (bidx, st, out[-300:], err[-300:])
             return res
         diffs = res["diffs"]
         refvals = res["refvals"] = {}
@@ -796,14 +803,14 @@ def _run_batch(args):
                 ci, labs = imgmap[int(p[1])]; diffs.setdefault(order[ci], []).append(("img:" + labs[int(p[2])], p[3], p[4]))
             elif p[0] == "X":
                 if int(p[1]) < 0:
-                    res["harness"] = "chibicc-compiled block function crashed with signal %s in batch %d" % (p[3], bidx)
+                    res["harness"] = "chibicc-compiled block function crashed with signal %s in batch %s" % (p[3], bidx)
                     return res
                 ci, labs = imgmap[int(p[1])]; diffs.setdefault(order[ci], []).append(("img:" + labs[int(p[2])], "signal" + p[3], "-"))
             elif p[0] == "S":
                 res["ntab"], res["nblk"], res["nimg"] = int(p[1][4:]), int(p[2][4:]), int(p[3][4:])
         res["judged"] = order
         return res
-    res["harness"] = "batch %d did not converge" % bidx
+    res["harness"] = "batch %s did not converge" % bidx
     return res
 
 
@@ -828,8 +835,8 @@ def has_nonzero_bitfield(seq):
 
 def replay_for(kind):
     if kind == "reject":
-        return "$CHIBICC -I $CHIBICC_DIR/include -DPFX=cc_ -c -o cc.o unit.c && exit 0; exit 1"
-    return ("$CHIBICC -I $CHIBICC_DIR/include -DPFX=cc_ -c -o cc.o unit.c || exit 1\n"
+        return "$CHIBICC -I$CHIBICC_DIR/include -DPFX=cc_ -c -o cc.o unit.c && exit 0; exit 1"
+    return ("$CHIBICC -I$CHIBICC_DIR/include -DPFX=cc_ -c -o cc.o unit.c || exit 1\n"
             "gcc -O0 -w -std=gnu11 -fno-pie -fcommon -DPFX=ref_ -c -o ref.o unit.c || exit 0\n"
             "gcc -O1 -w -fno-pie -no-pie -o drv $VERIF/harness/c08_driver.c cc.o ref.o -Wl,-z,noexecstack || exit 0\n"
             "./drv | grep -q '^[TBIX] ' && exit 1\nexit 0")
@@ -961,6 +968,8 @@ def run(ctx):
         return ",".join(out)
 
     def files_for(c):
+        if c["fam"] == "D":        # address-based facts depend on the neighbours: replay the whole (small) block
+            return {"unit.c": twin.PRELUDE + build_unit(gen_D(tier))[0]}
         return {"unit.c": twin.PRELUDE + build_unit([c])[0]}
 
     FAMNAME = {"A": "spec", "B": "declarator", "D": "misc"}
@@ -1009,7 +1018,8 @@ def run(ctx):
                    "identity) are compared table-against-table; a case counts only when gcc accepted it and the Python "
                    "model agreed with gcc on every predicted fact",
               bounds=("A: 30 specifier multisets of 6.7.2p2, all permutations, <=2 (thorough 3) extra tokens from {const, volatile, "
-                      "static, extern, typedef, _Alignas(16), register, auto} at every position, 5 contexts; "
+                      "static, extern, typedef, _Thread_local, _Alignas(16), register, auto} at every position, 5 contexts (declaration, "
+                      "typedef, type-name, struct member, block scope); "
                       "B: compositions of {pointer, array, function} of length <=%d around %d base types, minimal/full "
                       "parentheses, 2 parameter lists, named/typedef/abstract/parameter contexts; "
                       "C: member sequences (struct and union) of length <=%s over alphabets full=%d, q=%d, t4=%d members x %d "
